@@ -64,7 +64,7 @@ func RunPair(c CaseSpec, rep *monitor.Report, trace io.Writer) (int, error) {
 	if !ok {
 		return 0, fmt.Errorf("unknown profile %q", c.Profile)
 	}
-	k.PFault, k.PCrash, k.PStale, k.PRestart, k.PExternal, k.POddNode, k.PFleet, k.PDebugLog = 0, 0, 0, 0, 0, 0, 0, 0
+	k.PFault, k.PCrash, k.PStale, k.PRestart, k.PExternal, k.POddNode, k.PFleet, k.PDebugLog, k.PMidScan = 0, 0, 0, 0, 0, 0, 0, 0, 0
 	k.StatelessClock, k.SortedView = true, true
 	if k.MinGroups < 2 {
 		k.MinGroups = 2
